@@ -402,6 +402,53 @@ def run(model: RepoModel, rep, tier: str):
                         "positional parameters and the tail slice of the remaining positional arguments continue exactly where the first loop stopped, "
                         "so the parameter in between receives no argument state and no argument-to-parameter flow edge", 2)
     check_index_partitions(model, rep, "C10.R9", ["core/stmt_states.py"])
+    # ------------------------------------------------------------------ R10 the graph is read-only for the taint phase
+    rep.rule("C10.R10", "the taint phase writes only to objects it creates: an attribute store on a local is a store into an object constructed in "
+                        "that function or returned to it by a method of the phase that constructs it -- never into a node, an edge weight or a rule "
+                        "taken from the state-flow graph or the rule set, which every later (source, sink) pair reads again", 3)
+    tmods = [r for r in ("taint/taint_analysis.py", "taint/taint_structs.py", "taint/rule_manager.py") if r in model.modules]
+
+    def constructs(fn: Func, depth=0) -> bool:
+        """fn returns an object it constructs"""
+        for r in walk_no_nested(fn.node):
+            if isinstance(r, ast.Return) and isinstance(r.value, ast.Name):
+                ds = [a.value for a in walk_no_nested(fn.node) if isinstance(a, ast.Assign) and len(a.targets) == 1 and isinstance(a.targets[0], ast.Name)
+                      and a.targets[0].id == r.value.id]
+                if ds and all(isinstance(d, ast.Call) and (call_name(d) or "").split(".")[-1][:1].isupper() for d in ds):
+                    return True
+        return False
+    for rel in tmods:
+        for f in model.module(rel).all_funcs():
+            for st in walk_no_nested(f.node):
+                tgs = st.targets if isinstance(st, ast.Assign) else ([st.target] if isinstance(st, ast.AugAssign) else [])
+                for tg in tgs:
+                    base = tg
+                    while isinstance(base, (ast.Attribute, ast.Subscript)):
+                        base = base.value
+                    if not (isinstance(tg, ast.Attribute) and isinstance(base, ast.Name) and base.id not in ("self", "cls")):
+                        continue
+                    key = f"{rel}::{f.qualname}::`{norm(tg)}` written::the object is created by the taint phase"
+                    defs = [a.value for a in walk_no_nested(f.node) if isinstance(a, ast.Assign) and len(a.targets) == 1 and isinstance(a.targets[0], ast.Name)
+                            and a.targets[0].id == base.id]
+                    ok = bool(defs)
+                    for d in defs:
+                        if isinstance(d, ast.Call) and (call_name(d) or "").split(".")[-1][:1].isupper():
+                            continue
+                        callee = None
+                        if isinstance(d, ast.Call) and isinstance(d.func, ast.Attribute) and f.cls is not None:
+                            recv = model.expr_class(d.func.value, f) if not is_self_attr(d.func) else f.cls
+                            callee = model.find_method(recv, d.func.attr) if recv is not None else None
+                        if callee is not None and constructs(callee):
+                            continue
+                        ok = False
+                    if ok:
+                        rep.holds("C10.R10", key, rel, st.lineno, f"`{base.id}` is constructed here (`{norm(defs[0])[:60]}`)")
+                    else:
+                        rep.violation("C10.R10", key, rel, st.lineno,
+                                      f"{f.qualname} stores into `{norm(tg)}`, but `{base.id}` is not an object this function created "
+                                      f"({'bound by `' + norm(defs[0])[:60] + '`' if defs else 'a loop variable or parameter'}): it belongs to the state-flow "
+                                      f"graph / rule set shared by all (source, sink) pairs, so the evaluation of one pair changes what the next one "
+                                      f"sees (argument positions shift by one per evaluated source and later flows are lost)")
 
 
 def check_summary_accumulates(model: RepoModel, rep, RID: str, declare: bool = False):
